@@ -86,6 +86,19 @@ func runC01(t *testing.T, c simrt.Chooser, o Opts) *Out {
 		cmds = appCmds[:1] // socks; docker and elastic are covered by the HTTP-level suite C01-apphttp
 	}
 	s := genScan(p, genKnobs{maxProbes: maxProbes, cmds: cmds, allowVPN: true, allowStdin: true, allowExcl: true, chunkedPct: 12, remotePct: 50})
+	if p.n("widechunked", 300) == 0 {
+		// a scan split into port chunks over a subnet that is larger than the generators' channel
+		// buffers: when a chunk ends, address streams of that chunk are still in flight
+		s = &scanSpec{Cmd: [][]string{{"tcp"}, {"udp"}, {"tcp", "fin"}}[p.n("widecmd", 3)], Mode: "subnet", JSON: true, GwMAC: gwMAC}
+		s.Kind = s.Cmd[0]
+		s.Subnet = mkCIDR(ipU32("198.51.100.0")+uint32(p.n("wideoff", 2))*128, 25)
+		s.SubnetArg = s.Subnet.String()
+		start := 1000 + p.n("widestart", 50000)
+		for i, n := 0, 201+p.n("widen", 40); i < n; i++ {
+			s.Ports = append(s.Ports, portRange{start + i, start + i})
+		}
+		simrtFault(&Out{Stats: map[string]int{}}, "wide-chunked")
+	}
 	if s.app() {
 		s.Workers = p.pick("workers", 1, 2, 7, 100, 100, 1000)
 	}
